@@ -90,7 +90,7 @@ _QF = {'mech:cat:default-namespace-not-lower': 123, 'mech:cat:legacy-dotted-key'
        'tag:shape:schema-table-like-model:insert': 21, 'tag:shape:schema-table-like-model:join': 43,
        'tag:shape:schema-table-like-model:ts': 7, 'tag:shape:schema-table-like-model:where-sub': 21,
        'tag:shape:ts-join:target-sub': 57, 'tag:shape:ts-join:where-sub': 163,
-       # wave 6 (exact counts of the list: 972 / 192 / 441 / 27 / 144 and the shape counts below x 2)
+       # wave 6: about half of what the fixed list alone contributes (the list is the same in both tiers)
        'mech:cat:project-listed-as-integration': 480, 'also:proj': 160, 'also:mindsdb': 160, 'also:mindsdb+proj': 120,
        'mech:dbt:inner-without-database': 96, 'mech:native:outer-subselect': 220, 'mech:update:qualified-column': 13,
        'mech:update:where-subselect': 72, 'tag:shape:dbt-qualified-target:create': 24,
